@@ -9,7 +9,7 @@ Definition of_signed (w : nat) (z : Z) : N := Z.to_N (z mod 2 ^ (8 * Z.of_nat w)
 Record limits := { lim_blob : N; lim_string : N; lim_python : N; lim_count : N }.
 Definition spec_limits := {| lim_blob := 2^24; lim_string := 2^24; lim_python := 2^24; lim_count := 2^24 |}.
 (* the ranges on which the library's decoder agrees with the statement *)
-Definition code_limits := {| lim_blob := 2^24; lim_string := 2^24; lim_python := 255; lim_count := 255 |}.
+Definition code_limits := {| lim_blob := 2^24; lim_string := 2^24; lim_python := 2^24; lim_count := 255 |}.
 
 Definition len (b : bytes) : N := N.of_nat (length b).
 Definition len_list (l : list value) : N := N.of_nat (length l).
